@@ -378,6 +378,52 @@ R.add('L4.6', l46, lambda tier: [dict(nmsg=(3 if tier == 'quick' else 4))],
               'the client was connected and sent its batch (and one more message later)'],
       bounds='3 (thorough 4) messages of 1..40 bytes in one datagram; 2^n handler-exception patterns; 8 loop ticks')
 
+
+# ------------------------------------------------------------------ L4.7 retransmission behind a burst, API only
+def l47(k):
+    """two real endpoints, nothing injected: a BEST_EFFORT message is delivered, its ack is withheld, the sender then ships
+    a burst of k newer messages (as many per datagram as fit), and after the resend interval the first message is
+    retransmitted in a fresh datagram.  For every burst size inside the 256-message window the copy is not delivered
+    again."""
+    clock = proto.clock_at(100.0)
+    tx = proto.mk_client_side(clock=clock)
+    rx = proto.mk_server_side(clock=clock)
+    first, fl = rope.blob('first', 1, 40)
+    tx.send(first, RetryMode.BEST_EFFORT, None)
+
+    def ship():
+        pkt = tx._build_packet()
+        if pkt is None:
+            return False
+        raw = tx._encode_packet(pkt)
+        rx._recv_datagram(conn.PacketHeader.from_bytes(True, raw), raw)
+        return True
+    clock.advance(0.02)
+    check(ship(), 'the first datagram leaves')
+    for i in range(k):
+        tx.send(b'n', RetryMode.NONE, None)
+    for _ in range(4):
+        clock.advance(0.02)                    # below the resend interval: the burst travels without the first message
+        if not tx.outgoing_messages:
+            break
+        ship()
+    check(len(tx.outgoing_messages) == 0, 'the burst has left')
+    clock.advance(0.2)                         # past the resend interval: the unacknowledged message is sent again
+    ship()
+    copies = [d for s_, d in rx.incoming_messages if rope.isrope(d) and rope.full_view_blob(d) is rope.full_view_blob(first)
+              or (isinstance(d, bytes) and isinstance(first, bytes) and d == first and len(d) != 1)]
+    if core._rp() is not None:
+        copies = [d for s_, d in rx.incoming_messages if d == first]
+    check(len(copies) == 1, 'a retransmitted message that arrives behind a burst of newer messages is delivered once')
+    check(len(rx.incoming_messages) == k + 1, 'every message of the burst is delivered once')
+
+
+R.add('L4.7', l47, lambda tier: [dict(k=k) for k in ((1, 33, 40, 200) if tier == 'quick' else (1, 31, 32, 33, 40, 100, 200, 250))],
+      desc='two real endpoints (API only): BEST_EFFORT message, ack withheld, burst of k newer messages, retransmission in a fresh '
+           'datagram: delivered once',
+      expect=['a retransmitted message that arrives behind a burst of newer messages is delivered once'],
+      bounds='burst sizes 1, 33, 40, 200 (thorough also 31, 32, 100, 250) inside the 256-message window; payload of the first message 1..40 opaque bytes')
+
 import sys as _sys  # noqa: E402
 from . import loop as _loop, c10 as _c10, c11 as _c11  # noqa: E402
 R.lemmas['L4.6'].replay = generic_replay(l46, [proto, _loop, _c10, _sys.modules[__name__]], patches=_c11.LOOPPATCH)
@@ -385,7 +431,7 @@ for _l in R.lemmas.values():
     if _l.replay is None:
         _l.replay = generic_replay(_l.func, [proto, _sys.modules[__name__]])
 
-for _lid in ['L4.4', 'L4.5', 'L4.6']:
+for _lid in ['L4.4', 'L4.5', 'L4.6', 'L4.7']:
     if _lid in R.lemmas:
         R.lemmas[_lid].api = True
 
